@@ -413,9 +413,12 @@ Proof. vm_compute. repeat split. Qed.
          of every for have fine names ([names_okb]; automatic unless the source names its own index variable).
    Premises on the library only (fuel monotone, counter blind, contracts of arrayLength / arrayGet: all proved for the modelled
    library, C01_for_premises_hold_for_combined_library).
-   [ucompile_real] = the parser's lowering is decided per generated case inside Coq (Model/RunC01u.v check_lowering_n, family
-   `ucore` of the check), not proved in general. *)
-From BS Require Import Model.RunC01u Proofs.C01u Proofs.C01uReal.
+   [ucompile_real] IS the parser's lowering, PROVED for the whole language including `continue` and `for`
+   (C01_unified_compile_is_the_parser_lowering: the parser's pure lowering step folded over the tree's line kinds;
+   C01_unified_parse_is_compile: hence the parser model's output whenever the lines classify to those kinds;
+   C01_unified_end_to_end_partial: parse, then run = the structured reading).  That the PRINTED text of a tree classifies to its
+   kinds is the regex-level fact the check decides per case inside Coq (Model/RunC01u.v check_lowering_n, family `ucore`). *)
+From BS Require Import Model.RunC01u Proofs.C01u Proofs.C01uReal Proofs.C01uLower.
 
 Theorem C01_unified_simulation_partial : forall cfg, c_max cfg = 0%Z ->
   forall lib url_rel lint_lines, lib_fuel_monotone lib -> lib_count_blind lib ->
@@ -476,6 +479,58 @@ Proof.
 Qed.
 Print Assumptions C01_unified_extends_fragment.
 
+(* [ucompile_real] IS the parser's lowering, for every well-shaped source tree ([uwfs]: break / continue inside loops, if chains
+   well-shaped; no condition on names - the parser chooses them - and NO exclusion of `continue`): folding the parser's pure lowering
+   step (Model/Lower.v kstep; Props/C07.v proves pstep = classify ; kstep) over the line kinds of the tree, from the parser's initial
+   state and whatever the line numbers and texts are, gives exactly ucompile_real(tree), the counter of [uname], and no open block *)
+Theorem C01_unified_compile_is_the_parser_lowering : forall ann s, uwfs false s = true ->
+  kfold ann 0 ps_init (ukinds s) = ROk (gstate (ucompile_real 0 s) 0 [] (snd (uname 0 s))).
+Proof. exact ulowering_of_a_scope. Qed.
+Print Assumptions C01_unified_compile_is_the_parser_lowering.
+
+(* ... at any parser state of the global scope: the code is appended, the counter advances as [uname] says, and the frame stack is
+   as before except that the innermost loop frame is marked `has continue` iff the tree has a `continue` binding to it *)
+Theorem C01_unified_lowering_in_context : forall s ann i code depth fr n, uwfs (is_some (ctx_of fr)) s = true ->
+  kfold ann i (gstate code depth fr n) (ukinds s) =
+  ROk (gstate (code ++ fst (ucompile real_lab real_labc (ctx_of fr) n (fst (uname n s)))) depth (markf (uhas_cont s) fr) (snd (uname n s))).
+Proof. intros s. exact (proj1 (ulower_is_ucompile s)). Qed.
+Print Assumptions C01_unified_lowering_in_context.
+
+(* ... hence: whenever the logical lines of a text classify (statement regexes + expression parser) to the line kinds of the
+   tree, the parser model's result for that text is ucompile_real(tree) *)
+Theorem C01_unified_parse_is_compile : forall lines start s lls ls',
+  uwfs false s = true ->
+  llines lines 0 {| l_cont := []; l_ix := 0 |} = (lls, LDone ls') -> l_cont ls' = [] ->
+  Forall2 (fun il k => classify (start + fst il) (snd il) = ROk k) lls (ukinds s) ->
+  match ploop lines 0 {| l_cont := []; l_ix := 0 |} ps_init start with
+  | ROk (ls, ps) => pfinish ls ps start
+  | RErr e => RErr e | RHost w => RHost w | RFuel => RFuel
+  end = ROk (ucompile_real 0 s).
+Proof. exact uparse_is_ucompile. Qed.
+Print Assumptions C01_unified_parse_is_compile.
+
+(* END TO END (the property itself, for one scope): a text whose logical lines classify to the line kinds of a source tree parses
+   to a statement list on which the interpreter does what the structured reading of the tree says.  `partial` for the same three
+   reasons as C01_unified_simulation_partial (F7 guard, definedness side conditions of for, uwf). *)
+Theorem C01_unified_end_to_end_partial : forall cfg, c_max cfg = 0%Z ->
+  forall lib url_rel lint_lines, lib_fuel_monotone lib -> lib_count_blind lib ->
+  arrayLength_contract lib -> arrayGet_contract lib ->
+  forall um lines start s lls ls',
+  llines lines 0 {| l_cont := []; l_ix := 0 |} = (lls, LDone ls') -> l_cont ls' = [] ->
+  Forall2 (fun il k => classify (start + fst il) (snd il) = ROk k) lls (ukinds s) ->
+  forall loc w o loc' w',
+  UExec cfg lib url_rel lint_lines um (fst (uname 0 s)) (loc, w) o (loc', w') ->
+  uwf false (fst (uname 0 s)) = true -> uguard s = true ->
+  forall wm, weq w wm ->
+  exists code out wm',
+    match ploop lines 0 {| l_cont := []; l_ix := 0 |} ps_init start with
+    | ROk (ls, ps) => pfinish ls ps start
+    | RErr e => RErr e | RHost w => RHost w | RFuel => RFuel
+    end = ROk code /\
+    scope_result o = Some out /\ weq w' wm' /\ Run cfg lib url_rel lint_lines um code 0 loc wm (out, loc', wm').
+Proof. exact unified_end_to_end. Qed.
+Print Assumptions C01_unified_end_to_end_partial.
+
 (* non-vacuity: a `for` (with index variable, `continue` and `break`) inside an if / else inside a `while` (with `break`), statements
    around them: all hypotheses of C01_unified_simulation_partial hold, the parser model lowers the text to ucompile_real, and the
    structured reading and the interpreter on the lowered code both log the same four lines and return 'done' *)
@@ -521,7 +576,7 @@ Definition uni_world : world :=
 Definition uni_log : list str := [U "i=1 v=10 k=0"; U "i=1 v=30 k=2"; U "skip 2"; U "i=3 v=10 k=0"].
 
 Example C01_unified_nonvacuous :
-  uwf false (fst (uname 0 uni_prog)) = true /\ uguard uni_prog = true /\ ushape uni_prog = true /\
+  uwf false (fst (uname 0 uni_prog)) = true /\ uguard uni_prog = true /\ ushape uni_prog = true /\ uwfs false uni_prog = true /\
   check_lowering_n uni_text uni_prog = true /\
   option_map (fun r => (fst r, rev (w_log (snd (snd r)))))
     (uexec f7_cfg (libcore f7_cfg) Run.no_url Run.no_lint UHost 300 (fst (uname 0 uni_prog)) (None, uni_world))
